@@ -345,10 +345,10 @@ class ExpressionParser:
                 raise InvalidSyntax("Expected an expression after ^ operator")
 
             right = self.parse_unary()
-            exp = PowerExpression(factors[-1], right)
+            factors[-1] = PowerExpression(factors[-1], right)
 
         if len(factors) == 1:
-            return exp or factors[0]
+            return factors[0]
 
         while len(factors) > 0:
             if exp is None:
